@@ -366,8 +366,10 @@ def search(ctx, boost=1, focus=()):
     # noise-free lattices on a large detector, given as the integer centres the correlation returns (int16 / int32 / uint16):
     # a zero point with first-order reflections a few hundred pixels apart, small blocks of cells
     for k in range(4 * boost):
-        a = np.array([int(rng.integers(185, 320)), int(rng.integers(-40, 41))])
-        b = np.array([int(rng.integers(-40, 41)), int(rng.integers(185, 320))])
+        # (main components 190..240 px, small cross components: the lattice vectors, their sum and their difference all have
+        # components whose squares need more than 15 bits)
+        a = np.array([int(rng.integers(190, 241)), int(rng.integers(-8, 9))])
+        b = np.array([int(rng.integers(-8, 9)), int(rng.integers(190, 241))])
         z = np.array([int(rng.integers(480, 560)), int(rng.integers(480, 560))])
         idx = [[(1, 0), (-1, 0), (0, 1), (0, -1)], [(1, 0), (0, 1), (1, 1)], [(1, 0), (0, 1)], [(1, 0), (0, 1), (1, 1), (-1, 0)]][k % 4]
         pts = np.array([z] + [z + i * a + j * b for i, j in idx], dtype=np.float64)
